@@ -108,7 +108,7 @@ def diagnose(font_term, req, res):
     """Model's answer for one case (for the replay file)."""
     body = HDR + "Definition f : font := %s.\nEval vm_compute in (diagnose f (%s)).\n" % (font_term, coq_case(req, res))
     try:
-        out = C.coq_eval("c17_diag_%d" % os.getpid(), body, timeout=300)
+        out = C.coq_eval("c17_diag_%d" % os.getpid(), body, timeout=150)
         l = C.parse_eval_lists(out)
         if l and l[0] and l[0][0] == 1:
             v = l[0][2:]
@@ -152,7 +152,8 @@ def correspondence(chk, binp, n_fonts, texts, per_file, max_heavy):
         body += "Eval vm_compute in (summary [(f%d, [%s])]).\n" % (i, coq_case(r, o))
         jobs.append((name, body))
         index[name] = [(i, j, r, o)]
-    res = C.coq_eval_many(jobs, timeout=1500)
+    # a file of ~400 short cases takes 5-30 s; a run-away model evaluation (only when the implementation deviates) is cut off
+    res = C.coq_eval_many(jobs, timeout=600)
     dis = []
     tot = {"cases": 0, "agree": 0, "outside_table": 0, "outside_alloc": 0, "both_fail": 0, "moved": 0,
            "long_output_cases": len(heavy_cases), "long_output_cases_compared": len(chosen)}
@@ -400,6 +401,17 @@ def replay(chk, path):
             rcode = 1
         if body.get("kind", "").startswith("oracle"):
             print("expected (oracle):", body.get("detail"))
+            m = re.search(r"want=\[([^\]]*)\]", body.get("detail", ""))
+            if m and out.startswith("ok"):
+                want = [int(x) for x in m.group(1).split(",") if x.strip()]
+                got = [int(it.split("=")[0]) for it in out[2:].strip().split(",") if it]
+                if "dir=rtl" in req:
+                    got.reverse()
+                if got != want:
+                    print("STILL FAILING (oracle): got", got)
+                    rcode = 1
+                else:
+                    print("oracle satisfied now")
     elif body.get("font") and isinstance(body.get("font"), str) and req:
         fails, n = run_cases(binp, [("replay", body["font"], req)])
         for f in fails:
